@@ -59,6 +59,9 @@ LANES = {
 }
 
 
+EXTRA_ENV = {}
+
+
 def lane_env(lane):
     L = LANES[lane]
     env = dict(os.environ)
@@ -66,8 +69,10 @@ def lane_env(lane):
     env["RUSTFLAGS"] = (BASE_RUSTFLAGS + " " + L.get("rustflags", "")).strip()
     env.pop("RUSTC_WRAPPER", None)
     if L.get("miri"):
-        env["MIRIFLAGS"] = os.environ.get("VERIF_MIRIFLAGS", "-Zmiri-ignore-leaks") if False else os.environ.get("VERIF_MIRIFLAGS", "")
+        env["MIRIFLAGS"] = os.environ.get("VERIF_MIRIFLAGS", "")
     for k, v in L.get("env", {}).items():
+        env[k] = v
+    for k, v in EXTRA_ENV.get(lane, {}).items():
         env[k] = v
     return env
 
@@ -102,6 +107,9 @@ def build_args(lane):
     return a
 
 
+BIN = "worker"
+
+
 def binary_path(lane):
     L = LANES[lane]
     prof = L["profile"]
@@ -109,7 +117,7 @@ def binary_path(lane):
     d = lane_dir(lane)
     if L.get("target"):
         d = os.path.join(d, L["target"])
-    return os.path.join(d, pdir, "worker")
+    return os.path.join(d, pdir, BIN)
 
 
 _built = {}
@@ -119,29 +127,32 @@ def build_lane(lane, log):
     """Build (incrementally) the worker for a lane from /repo's current working tree.
     Returns (ok, output)."""
     key = LANES[lane].get("shares", lane)
-    if key in _built:
-        return _built[key]
+    if (key, BIN) in _built:
+        return _built[(key, BIN)]
     L = LANES[key]
     os.makedirs(lane_dir(key), exist_ok=True)
     # qwt's own Cargo.lock pins every dependency; keep the harness lock file in sync with it
     t0 = time.time()
     if L.get("miri"):
-        cmd = cargo_base(key) + ["miri", "run"] + build_args(key) + ["--", "NOOP"]
+        cmd = cargo_base(key) + ["miri", "run", "--bin", BIN] + build_args(key) + ["--", "NOOP"]
     else:
-        cmd = cargo_base(key) + ["build"] + build_args(key)
-    p = subprocess.run(cmd, env=lane_env(key), cwd=HARNESS, stdout=subprocess.PIPE, stderr=subprocess.STDOUT, text=True)
+        cmd = cargo_base(key) + ["build", "--bin", BIN] + build_args(key)
+    benv = lane_env(key)
+    if L.get("miri"):
+        benv["MIRIFLAGS"] = ""   # the warm-up run needs no scheduler seeds
+    p = subprocess.run(cmd, env=benv, cwd=HARNESS, stdout=subprocess.PIPE, stderr=subprocess.STDOUT, text=True)
     ok = p.returncode == 0
     log(f"[build] lane={key} ok={ok} {time.time() - t0:.1f}s")
     if not ok:
         log(p.stdout[-6000:])
-    _built[key] = (ok, p.stdout)
-    return _built[key]
+    _built[(key, BIN)] = (ok, p.stdout)
+    return _built[(key, BIN)]
 
 
 def worker_cmd(lane, args):
     L = LANES[lane]
     if L.get("miri"):
-        return cargo_base(lane) + ["miri", "run", "-q"] + build_args(lane) + ["--"] + args
+        return cargo_base(lane) + ["miri", "run", "-q", "--bin", BIN] + build_args(lane) + ["--"] + args
     if L.get("valgrind"):
         return ["valgrind", "--error-exitcode=97", "--quiet", "--track-origins=no", "--leak-check=no",
                 binary_path(lane)] + args
@@ -368,7 +379,11 @@ def match_known(sig, known, v=None):
 def main_check(prop, tier, only_lanes=None, keep=False):
     seed = int(os.environ.get("VERIF_SEED", "1"))
     t_start = time.time()
+    global BIN
     P = plan.PLANS[prop]
+    BIN = P.get("bin", "worker")
+    EXTRA_ENV.clear()
+    EXTRA_ENV.update(P.get("env", {}).get(tier, {}))
     lanes = P["lanes"][tier]
     if only_lanes:
         lanes = [(l, n) for (l, n) in lanes if l in only_lanes]
@@ -578,6 +593,8 @@ def main_replay(path):
     with open(path) as f:
         rec = json.load(f)
     prop, tier, lane, seed = rec["property"], rec["tier"], rec["lane"], rec["seed"]
+    global BIN
+    BIN = plan.PLANS[prop].get("bin", "worker")
     idx = rec["case_index"]
     if idx is None or lane not in LANES:
         print("this replay file has no runnable case (build-time observation); re-run the check instead")
@@ -605,7 +622,13 @@ def main_replay(path):
 def main_setup():
     ok_all = True
     lanes = [l for l in LANES if not LANES[l].get("shares")]
+    global BIN
     for lane in lanes:
+        BIN = "worker"
+        ok, out = build_lane(lane, print)
+        ok_all = ok_all and ok
+    for lane in ("rel", "tsan", "miri"):
+        BIN = "worker18"
         ok, out = build_lane(lane, print)
         ok_all = ok_all and ok
     return 0 if ok_all else 1
